@@ -153,12 +153,29 @@ def stateFindings (label : String) (st : Up4.St) (p4 : Json) : List Finding :=
 
 /-! ## oracles -/
 
-/-- C16: every update of every Write is valid for the shipped pipeline -/
-def validityFindings (label : String) (obs : List ObsRpc) : List Finding :=
-  obs.flatMap fun r => r.ups.filterMap fun u =>
-    if u.big then some ⟨"C16", s!"{label}: a value does not fit 64 bits: {showU u.upd}"⟩
-    else if validUpd Up4.info u.upd then none
-    else some ⟨"C16", s!"{label}: update is not valid for the pipeline's P4Info ({tableName (match u.upd.ent with | .tbl e => e.table | _ => 0)}): {showU u.upd}"⟩
+/-- the P4Info the switch serves: the shipped one, with the counters resized when the harness serves a smaller pipeline -/
+def servedInfo (cfg4 : Cfg4) : P4.Info :=
+  if cfg4.ctrSize = 0 then Up4.info else { Up4.info with counters := Up4.info.counters.map fun a => { a with size := cfg4.ctrSize } }
+
+/-- the counter index a terminations entry carries (its `ctr_idx` action parameter) -/
+def ctrIdxOf (e : Entry) : Option Nat :=
+  (Up4.info.actions.find? (·.id == e.action)).bind fun act => (act.params.find? (·.name == "ctr_idx")).bind fun p => (e.ps.find? (·.1 == p.id)).map (·.2.1)
+
+/-- C16: every update of every Write is valid for the pipeline the switch serves: tables, match fields, actions and parameters as
+declared; meter and counter indices — those written directly and those carried by a terminations entry — inside the declared arrays -/
+def validityFindings (label : String) (obs : List ObsRpc) (cfg4 : Cfg4 := { accessIP := 0, uePool := (0, 0) }) : List Finding :=
+  obs.flatMap fun r => r.ups.flatMap fun u =>
+    (if u.big then [⟨"C16", s!"{label}: a value does not fit 64 bits: {showU u.upd}"⟩]
+     else if validUpd (servedInfo cfg4) u.upd then []
+     else [⟨"C16", s!"{label}: update is not valid for the pipeline's P4Info ({tableName (match u.upd.ent with | .tbl e => e.table | _ => 0)}): {showU u.upd}"⟩]) ++
+    (match u.upd.ent with
+     | .tbl e =>
+       if u.upd.op == .delete then [] else
+       match ctrIdxOf e with
+       | some v => if v < Up4.ctrCells cfg4 then [] else
+           [⟨"C16", s!"{label}: a terminations entry counts into cell {v}, outside the counter's {Up4.ctrCells cfg4} cells: {showU u.upd}"⟩]
+       | none => []
+     | _ => [])
 
 def interfacesEntries (cfg4 : Cfg4) : List Entry :=
   (buildInterface cfg4.uePool.1 cfg4.uePool.2 cfg4.sliceID true).toList ++ (buildInterface cfg4.accessIP cfg4.accessLen cfg4.sliceID false).toList
@@ -349,7 +366,7 @@ def common (s : St4) (label : String) (obs : Json) (x' : World4) (cause : Nat) (
   let liveSkip := s.createdInMod.filter fun (f, id) => (live x').any fun ses => ses.lseid == f && ses.pdrs.any (·.pdrID == id)
   let pf := poolFindings label x' p4 liveSkip (Up4.ctrCells s.cfg4) ++ exclusiveFindings label p4 (!liveSkip.isEmpty)
   let newPf := pf.filter fun f => !s.seenPool.contains (strip f.msg)
-  ({ s'' with seenPool := pf.map fun f => strip f.msg }, rf ++ sf ++ validityFindings label rpcs ++ failedWriteFindings label rpcs cause ++ newPf ++ imf ++ idle)
+  ({ s'' with seenPool := pf.map fun f => strip f.msg }, rf ++ sf ++ validityFindings label rpcs s.cfg4 ++ failedWriteFindings label rpcs cause ++ newPf ++ imf ++ idle)
 
 def step (s : St4) (n : Nat) (line : String) : St4 × List Finding :=
   match Json.parse line with
